@@ -170,7 +170,7 @@ def nesterov_loop_correspondence(R, cases, tier):
     sel += [c for c in cases if prim_ok(c["c1"]) and prim_ok(c["c2"]) and all(c is not x for x in sel)][: (80 if tier == "quick" else 700)]
     tc = [dict(c1=c["c1"], c2=c["c2"], kw={}, prim=prim_ok(c["c1"]) and prim_ok(c["c2"]), meta=c["meta"]) for c in sel]
     try:
-        nwk = min(cm.NCPU, max(1, len(tc) // 6))
+        nwk = min(6, max(1, len(tc) // 12))
         chunks = [tc[i::nwk] for i in range(nwk)]
         res = cm.run_impl_parallel(PID, "narrowbtrace9", [dict(cases=ch) for ch in chunks], timeout=1500, tag="trace9")
         out = [None] * len(tc)
